@@ -40,10 +40,10 @@ def InB (B : CArr → Int × Int) (h : Hit) : Prop := (B h.arr).1 ≤ h.idx ∧ 
 /-- Structural steps: split lists, enter loops. -/
 macro "hits_step" : tactic =>
   `(tactic| first
-    | apply all_nil
-    | apply all_append
-    | apply all_cons
-    | (apply all_loop; intro _ _ _))
+    | with_reducible apply all_nil
+    | with_reducible apply all_append
+    | with_reducible apply all_cons
+    | (with_reducible apply all_loop; intro _ _ _))
 
 /-! ## xcorr_kernel_c, celt_inner_prod_c -/
 
@@ -124,7 +124,9 @@ theorem lpc_in (p : Int) (hp : 0 ≤ p) : All (InB (lpcB p)) (lpcHits p) := by
 
 def pdownB (len : Int) (stereo : Bool) : CArr → Int × Int
   | .x => (0, len - 1) | .x1 => if stereo then (0, len - 1) else (1, 0) | .xlp => (0, len / 2 - 1)
-  | .lac => (0, 4) | .llpc => (0, 3) | .lpc2 => (0, 4) | _ => (1, 0)
+  | .lac => (0, 4) | .llpc => (0, 3) | .lpc2 => (0, 4)
+  | .xx => (0, len / 2 - 1)        -- the nested _celt_autocorr's local `xx[len>>1]` (allocated, unused with overlap = 0)
+  | _ => (1, 0)
 
 /-- `pitch_downsample(x, x_lp, len, C)`: `x[c][0 .. len)`, `x_lp[0 .. len/2)`, locals `ac[5]`, `lpc[4]`, `lpc2[5]`; the
     second channel only for `C = 2`.  Precondition: `len ≥ 14` (the nested `_celt_autocorr(x_lp, ac, NULL, 0, 4, len>>1)`
@@ -133,24 +135,28 @@ theorem pdown_in (len : Int) (stereo : Bool) (hlen : 14 ≤ len) : All (InB (pdo
   unfold pdownHits fir5Hits
   have hac := acorr_in 0 4 (len / 2) ⟨Int.le_refl 0, by omega⟩ (by omega) (by omega)
   have hlp := lpc_in 4 (by omega)
+  have hmapA : All (InB (pdownB len stereo)) ((autocorrHits 0 4 (len / 2)).map fun h =>
+      match h.arr with | .x => ⟨.xlp, h.idx⟩ | .ac => ⟨.lac, h.idx⟩ | a => ⟨a, h.idx⟩) := by
+    refine all_map hac ?_
+    rintro ⟨a, i⟩ ⟨h1, h2⟩
+    cases a <;> simp only [acorrB, pdownB, InB] at h1 h2 ⊢ <;> omega
+  have hmapL : All (InB (pdownB len stereo)) ((lpcHits 4).map fun h =>
+      match h.arr with | .lpc => ⟨.llpc, h.idx⟩ | .ac => ⟨.lac, h.idx⟩ | a => ⟨a, h.idx⟩) := by
+    refine all_map hlp ?_
+    rintro ⟨a, i⟩ ⟨h1, h2⟩
+    cases a <;> simp only [lpcB, pdownB, InB] at h1 h2 ⊢ <;> omega
   cases stereo
-  · simp only [Bool.false_eq_true, if_false]
+  · simp only [Bool.false_eq_true, if_false] at hmapA hmapL ⊢
     repeat' hits_step
-    any_goals (refine ⟨?_, ?_⟩ <;> simp only [pdownB, Bool.false_eq_true, if_false] <;> omega)
-    · refine all_map hac ?_
-      rintro ⟨a, i⟩ ⟨h1, h2⟩
-      cases a <;> simp only [acorrB, pdownB, InB] at h1 h2 ⊢ <;> omega
-    · refine all_map hlp ?_
-      rintro ⟨a, i⟩ ⟨h1, h2⟩
-      cases a <;> simp only [lpcB, pdownB, InB] at h1 h2 ⊢ <;> omega
-  · simp only [if_true]
+    all_goals first
+      | exact hmapA
+      | exact hmapL
+      | (refine ⟨?_, ?_⟩ <;> simp only [pdownB] <;> omega)
+  · simp only [if_true] at hmapA hmapL ⊢
     repeat' hits_step
-    any_goals (refine ⟨?_, ?_⟩ <;> simp only [pdownB, if_true] <;> omega)
-    · refine all_map hac ?_
-      rintro ⟨a, i⟩ ⟨h1, h2⟩
-      cases a <;> simp only [acorrB, pdownB, InB] at h1 h2 ⊢ <;> omega
-    · refine all_map hlp ?_
-      rintro ⟨a, i⟩ ⟨h1, h2⟩
-      cases a <;> simp only [lpcB, pdownB, InB] at h1 h2 ⊢ <;> omega
+    all_goals first
+      | exact hmapA
+      | exact hmapL
+      | (refine ⟨?_, ?_⟩ <;> simp only [pdownB, if_true] <;> omega)
 
 end Opus.CeltCallees
